@@ -100,7 +100,7 @@ func genHashKeys(r *kernel.RNG, n int) []hkey {
 		case 0:
 			add(hkey{"sym", r.Pick(hashSymNames)})
 		case 1:
-			add(hkey{"str", r.Pick([]string{"s", "a", "", "long key", "k9"})})
+			add(hkey{"str", r.Pick([]string{"s", "a", "", "long key", "k9", "q\"r", "b\\s", "br]ck{t"})})
 		case 2:
 			add(hkey{"int", strconv.Itoa(r.PickInt([]int{0, 1, 2, 7, -1, 42, 99}))})
 		case 3:
@@ -331,8 +331,23 @@ func balancedPrint(s string) bool {
 		return false
 	}
 	depth := 0
+	inStr, esc := false, false
 	for _, c := range s {
+		// (brackets inside quoted keys do not count; a key with a quote or backslash in it is printed escaped)
+		if inStr {
+			switch {
+			case esc:
+				esc = false
+			case c == '\\':
+				esc = true
+			case c == '"':
+				inStr = false
+			}
+			continue
+		}
 		switch c {
+		case '"':
+			inStr = true
 		case '{', '(', '[':
 			depth++
 		case '}', ')', ']':
@@ -342,7 +357,7 @@ func balancedPrint(s string) bool {
 			}
 		}
 	}
-	return depth == 0 && strings.ContainsAny(s[:1], "{(") 
+	return depth == 0 && !inStr && strings.ContainsAny(s[:1], "{(")
 }
 
 // jsonMembers: the member names and integer values of a JSON object in document order, without the encoder's own
